@@ -1,4 +1,41 @@
-(* placeholder so that the pipeline can be exercised; replaced by the real theorems *)
-From SV Require Import Names Rep.
-Theorem C10_placeholder : True. Proof. exact I. Qed.
-Print Assumptions C10_placeholder.
+(* C10 -- comparison operators.  Theorem statements only; proofs in Cmp.v. *)
+From Coq Require Import String ZArith Bool Arith List.
+From SV Require Import Names NamesFacts ListFacts Rep Fresh Complex Atomic RepInv Cmp.
+Import ListNotations.
+
+(* a <= b exactly when every simplex listed in a occurs in b with the same order and with its
+   faces among its faces in b (for well-formed complexes both have k+1 faces, hence the same set) *)
+Theorem C10_le_iff : forall a c, c_le a c = true <-> le_spec a c.
+Proof. exact le_iff. Qed.
+Print Assumptions C10_le_iff.
+
+Theorem C10_operators_defined_from_le :
+  forall a c, c_lt a c = c_le a c && (numberOfSimplices a <? numberOfSimplices c) /\
+              c_eq a c = c_le a c && (numberOfSimplices a =? numberOfSimplices c) /\
+              c_ge a c = c_le c a /\ c_gt a c = c_lt c a /\ c_ne a c = negb (c_eq a c).
+Proof. intros; repeat split. Qed.
+Print Assumptions C10_operators_defined_from_le.
+
+Theorem C10_attributes_never_matter :
+  forall a c x y, c_le (with_attr a x) (with_attr c y) = c_le a c /\ c_eq (with_attr a x) (with_attr c y) = c_eq a c /\
+                  c_lt (with_attr a x) (with_attr c y) = c_lt a c.
+Proof. exact attr_blind. Qed.
+Print Assumptions C10_attributes_never_matter.
+
+(* <= is reflexive, transitive and antisymmetric up to == on every reachable complex *)
+Theorem C10_refl : forall a, pinv a -> c_le a a = true /\ c_eq a a = true.
+Proof. intros a H. split; [now apply le_refl | now apply eq_refl']. Qed.
+Print Assumptions C10_refl.
+Theorem C10_trans : forall a b c, pinv b -> c_le a b = true -> c_le b c = true -> c_le a c = true.
+Proof. exact le_trans. Qed.
+Print Assumptions C10_trans.
+Theorem C10_antisym : forall a b, pinv a -> pinv b -> c_le a b = true -> c_le b a = true -> c_eq a b = true.
+Proof. exact le_antisym. Qed.
+Print Assumptions C10_antisym.
+
+(* non-vacuity / the defect repaired in /repo: two distinct lone points are not equal *)
+Example C10_lone_points :
+  let a := fst (addSimplex (empty_rep 1) [] (Some (NInt 1)) None) in
+  let b := fst (addSimplex (empty_rep 2) [] (Some (NInt 2)) None) in
+  c_eq a b = false /\ c_le a b = false /\ c_eq a a = true.
+Proof. vm_compute. repeat split. Qed.
